@@ -43,6 +43,12 @@ func defFor(check string) *checkDef {
 			rule: "storage-corruption fault injection on the snapshot files simulated runs actually produce (0..many segments, with and without deleted bitmaps; every fourth run is a no-merge run of ~200 batches so that the file crosses the 4096-byte read buffer). Round trip: every produced snapshot is decoded with the exported decoder and compared (ids, types, versions, deleted sets) with what was handed to the encoder. Rejection, per chosen file: every truncation length, every single-bit flip (quick tier on files > 300 bytes: header, trailer, the 4096 boundary and a seeded sample), appended tails (1 byte, 4 bytes, a copy of itself), zero-fill, seeded garbage, every uvarint length field replaced by 2^31/2^40/2^63/2^64-1; the damaged file is the newest snapshot of an image that also holds the older intact ones; the image is opened in a child process (RLIMIT_AS) through the mmap and the non-mmap loader: no death, no panic, allocation <= 64 x directory size + 16 MiB, content = the older snapshot's state. evaluations = simulated runs; crash_images_probed = damaged images opened. Ids up to 2^64-1 and coverage-guided fuzzing of the decoder are input generation, outside this technique",
 			assume: append([]string{"CRC-32 detects every single-bit flip and every burst <= 32 bits; a truncation is accepted with probability 2^-32 per length (would be reported)"}, commonAssume...),
 			probes: []string{"snapshot-over-4096-bytes", "damaged-snapshot-with-deleted-bitmap"}}
+	case "C14":
+		return &checkDef{property: "C14", level: "fault_enumeration", timeout: 1200 * time.Second,
+			budget: map[string]tierCfg{"quick": {48, 70}, "thorough": {4000, 1800}},
+			rule: "base runs are sampled by seed (1-2 clients, safe mode or unsafe with persisted callbacks, held readers); because a run is a pure function of its tape, the same tape is re-run with a fault placed on operation i of the recorded directory trace: every operation x every placement {directory error before any byte, item-writer failure after a partial write, os write ENOSPC after 3 bytes, fsync EIO after the full write; thorough also open/close/truncate errors and failure at byte 0 / at the end} (quick tier: a seeded subset of <= 160 placements per base run), plus sticky spans (2-7 consecutive operations fail) and seeded pairs. Oracle per faulted run: no panic, no hang (deterministic verdict), a Batch error only when a fault fired, AsyncError fired when a persister/merger step failed, monitor and held readers equal the abstract index of applied batches (a batch whose call returned the persist error is applied), the run finishes within 4x the fault-free window count + 3000 once faults stop, the reopened index equals the abstract index at quiescence, and for every 5th faulted run all crash images (during and after the fault) pass the C03 oracle. evaluations = base runs; fault_runs = faulted re-executions",
+			assume: commonAssume,
+			probes: []string{"batch-returned-persist-error", "open-failed-under-fault"}}
 	case "C13":
 		return &checkDef{property: "C13", level: "fault_enumeration", timeout: 600 * time.Second, special: true,
 			budget: map[string]tierCfg{"quick": {1, 300}, "thorough": {1, 600}},
